@@ -11,6 +11,7 @@ pub use model::{Addresses, Header, SEPARATOR, TCP4, TCP6, UNKNOWN};
 pub use model::{PROTOCOL_PREFIX, PROTOCOL_SUFFIX};
 use std::borrow::Cow;
 use std::cmp::min;
+use std::iter::Peekable;
 use std::net::{AddrParseError, Ipv4Addr, Ipv6Addr};
 use std::str::{from_utf8, FromStr};
 
@@ -121,7 +122,7 @@ fn parse_header(header: &str) -> Result<Header, ParseError> {
 
 /// Parses the addresses and ports from a PROXY protocol header for IPv4 and IPv6.
 fn parse_addresses<'a, T: FromStr<Err = AddrParseError>, I: Iterator<Item = &'a str>>(
-    iterator: &mut I,
+    iterator: &mut Peekable<I>,
     terminated: bool,
 ) -> Result<(T, T, u16, u16), ParseError> {
     // A field can only still be on its way while the line is not terminated.
@@ -133,6 +134,10 @@ fn parse_addresses<'a, T: FromStr<Err = AddrParseError>, I: Iterator<Item = &'a 
     let destination_address = next(ParseError::MissingDestinationAddress)?;
     let source_port = next(ParseError::MissingSourcePort)?;
     let destination_port = next(ParseError::MissingDestinationPort)?;
+
+    if destination_port.is_empty() && !terminated && iterator.peek().is_none() {
+        return Err(ParseError::MissingDestinationPort);
+    }
 
     let source_address = source_address
         .parse::<T>()
